@@ -34,6 +34,8 @@ type scenario struct {
 	Second        string `json:"second_signal,omitempty"`          // a second signal (INT | TERM) ...
 	SecondAfterMs int    `json:"second_signal_after_ms,omitempty"` // ... this long after the first one
 	ListHoldMs    int    `json:"list_hold_ms,omitempty"`       // how long the list call in flight at the signal is held after it (default 150 ms; a long poll lasts up to 30 s)
+	LateListed    bool   `json:"late_listed,omitempty"`        // the list call in flight at the signal is answered with a request ID ("req-late")
+	RequestBodyMs int    `json:"request_body_ms,omitempty"`    // the forwarded request is a POST whose body the proxy delivers over this long (the signal falls in between)
 	ListFault     string `json:"list_fault,omitempty"`      // "503": how the list call in flight at the signal ends (default: empty list). A dropped connection is not used: net/http re-sends an idempotent GET on its own, which the fake proxy cannot tell from a new poll
 }
 
@@ -49,12 +51,16 @@ type result struct {
 	AtBackendMs   int64    `json:"at_backend_ms"`
 	UploadDoneMs  int64    `json:"upload_done_ms"` // -1: no complete upload
 	UploadOK      bool     `json:"upload_ok"`
+	LateFetchedMs int64    `json:"late_fetched_ms"`     // when the request listed by the call in flight at the signal was fetched (-1: never)
+	LateBackend   int      `json:"late_backend_calls"`  // how often it reached the backend
+	LateUploadOK  bool     `json:"late_upload_ok"`
+	BodySeen      int      `json:"backend_saw_body_bytes"`
 	Err           string   `json:"err,omitempty"`
 	Stderr        string   `json:"stderr_tail,omitempty"`
 }
 
 func runScenario(agentBin string, sc scenario) result {
-	res := result{Scenario: sc, ExitMs: -1, UploadDoneMs: -1, AtBackendMs: -1, SignalMs: -1}
+	res := result{Scenario: sc, ExitMs: -1, UploadDoneMs: -1, AtBackendMs: -1, SignalMs: -1, LateFetchedMs: -1}
 	start := time.Now()
 	ms := func() int64 { return time.Since(start).Milliseconds() }
 	var mu sync.Mutex
@@ -78,10 +84,22 @@ func runScenario(agentBin string, sc scenario) result {
 			} else {
 				w.WriteHeader(500)
 			}
+		case r.URL.Path == "/late":
+			mu.Lock()
+			res.LateBackend++
+			mu.Unlock()
+			w.Header().Set("X-Work", "done")
+			w.Write(bytes.Repeat([]byte("w"), 20000))
 		case r.URL.Path == "/work":
 			mu.Lock()
 			res.AtBackendMs = ms()
 			mu.Unlock()
+			if r.Method == "POST" {
+				b, _ := io.ReadAll(r.Body)
+				mu.Lock()
+				res.BodySeen = len(b)
+				mu.Unlock()
+			}
 			select {
 			case atBackend <- struct{}{}:
 			default:
@@ -153,7 +171,16 @@ func runScenario(agentBin string, sc scenario) result {
 					}
 				}
 				if !faulted {
-					w.Write([]byte("[]"))
+					select {
+					case <-signalled:
+						if sc.LateListed {
+							w.Write([]byte(`["req-late"]`))
+							break
+						}
+						w.Write([]byte("[]"))
+					default:
+						w.Write([]byte("[]"))
+					}
 				}
 			}
 			mu.Lock()
@@ -162,7 +189,28 @@ func runScenario(agentBin string, sc scenario) result {
 			mu.Unlock()
 		case strings.HasSuffix(r.URL.Path, "agent/request"):
 			w.Header().Set("X-Inverting-Proxy-Request-Start-Time", time.Now().Format(time.RFC3339Nano))
-			fmt.Fprintf(w, "GET /work HTTP/1.1\r\nHost: verif.example\r\n\r\n")
+			switch {
+			case id == "req-late":
+				mu.Lock()
+				res.LateFetchedMs = ms()
+				mu.Unlock()
+				fmt.Fprintf(w, "GET /late HTTP/1.1\r\nHost: verif.example\r\n\r\n")
+			case sc.RequestBodyMs > 0:
+				// a request whose body is still arriving from the proxy while the agent has already handed it to the backend
+				fmt.Fprintf(w, "POST /work HTTP/1.1\r\nHost: verif.example\r\nContent-Type: application/octet-stream\r\nContent-Length: 40000\r\n\r\n")
+				fl, _ := w.(http.Flusher)
+				for k := 0; k < 4; k++ {
+					w.Write(bytes.Repeat([]byte("b"), 10000))
+					if fl != nil {
+						fl.Flush()
+					}
+					if k < 3 {
+						time.Sleep(time.Duration(sc.RequestBodyMs/3) * time.Millisecond)
+					}
+				}
+			default:
+				fmt.Fprintf(w, "GET /work HTTP/1.1\r\nHost: verif.example\r\n\r\n")
+			}
 		case strings.HasSuffix(r.URL.Path, "agent/response"):
 			b, err := io.ReadAll(r.Body)
 			ok := false
@@ -173,8 +221,12 @@ func runScenario(agentBin string, sc scenario) result {
 				}
 			}
 			mu.Lock()
-			res.UploadDoneMs = ms()
-			res.UploadOK = ok && id == "req-1"
+			if id == "req-late" {
+				res.LateUploadOK = ok
+			} else {
+				res.UploadDoneMs = ms()
+				res.UploadOK = ok && id == "req-1"
+			}
 			mu.Unlock()
 			w.WriteHeader(200)
 		}
@@ -277,6 +329,7 @@ func main() {
 	agentBin := flag.String("agent", "", "agent binary")
 	outPath := flag.String("out", "", "output file")
 	tier := flag.String("tier", "quick", "quick|thorough")
+	only := flag.String("only", "", "run only the scenarios whose name contains this")
 	flag.Parse()
 	var scs []scenario
 	T, F := true, false
@@ -310,6 +363,8 @@ func main() {
 			scenario{Name: "graceful-800ms-idle-" + sig, Kind: "graceful", GraceMs: 800, Signal: sig, Phase: "idle", SignalAfterMs: 700},
 			scenario{Name: "graceful-off-idle-long-poll-in-flight-" + sig, Kind: "graceful", GraceMs: 0, Signal: sig, Phase: "idle", SignalAfterMs: 700, ListHoldMs: 4000},
 			scenario{Name: "graceful-1s-idle-long-poll-in-flight-" + sig, Kind: "graceful", GraceMs: 1000, Signal: sig, Phase: "idle", SignalAfterMs: 700, ListHoldMs: 4000},
+			scenario{Name: "graceful-2s-idle-poll-in-flight-lists-a-request-" + sig, Kind: "graceful", GraceMs: 2000, Signal: sig, Phase: "idle", SignalAfterMs: 700, LateListed: true},
+			scenario{Name: "graceful-3s-request-body-still-arriving-" + sig, Kind: "graceful", GraceMs: 3000, Signal: sig, Phase: "at-backend", BackendMs: 300, SignalAfterMs: 150, RequestBodyMs: 1500},
 			scenario{Name: "graceful-2s-idle-list-503-" + sig, Kind: "graceful", GraceMs: 2000, Signal: sig, Phase: "idle", SignalAfterMs: 700, ListFault: "503"},
 			scenario{Name: "graceful-3s-backend-list-503-" + sig, Kind: "graceful", GraceMs: 3000, Signal: sig, Phase: "at-backend", BackendMs: 1200, SignalAfterMs: 200, ListFault: "503"},
 		)
@@ -336,6 +391,9 @@ func main() {
 	var omu sync.Mutex
 	sem := make(chan struct{}, 16)
 	for _, sc := range scs {
+		if *only != "" && !strings.Contains(sc.Name, *only) {
+			continue
+		}
 		wg.Add(1)
 		sem <- struct{}{}
 		go func(sc scenario) {
